@@ -1,1 +1,4 @@
 import Ibx.Bytes
+import Ibx.Gen.Entry
+import Ibx.Tie.Entry
+import Ibx.Props.C06Entry
